@@ -7,12 +7,13 @@ from pathlib import Path
 
 ID, k = sys.argv[1], sys.argv[2]
 checks = sys.argv[3:] or [ID]
-src = Path(f'/tmp/seedout/{ID}')
+src = Path(os.environ.get('SEED_SRC', f'/tmp/seedout/{ID}'))
+KOUT = os.environ.get('SEED_K_OUT', k)
 patch, demo, meta = src / f'patch{k}.diff', src / f'demo{k}.py', src / f'meta{k}.json'
 env = dict(os.environ, PYTHONDONTWRITEBYTECODE='1')
 def sh(cmd, **kw):
     return subprocess.run(cmd, shell=True, text=True, capture_output=True, env=env, **kw)
-wt = f'/tmp/seedchk_{ID}_{k}'
+wt = f'/tmp/seedchk_{ID}_{KOUT}'
 sh(f'git -C /repo worktree remove --force {wt}')
 assert sh(f'git -C /repo worktree add -q --detach {wt} HEAD').returncode == 0
 rec = {}
@@ -32,26 +33,33 @@ print('confirmed:', rec)
 ok = rec['demo_clean_exit'] == 0 and rec['tests_pass'] and rec['demo_patched_exit'] == 1
 caught = {}
 if ok:
-    assert sh('git -C /repo diff --quiet').returncode == 0, '/repo not clean'
-    assert sh(f'git -C /repo apply {patch}').returncode == 0
+    # run the checks against a scratch worktree carrying the patch (DARR_REPO), so that /repo itself - which
+    # background runs may be using - is never modified
+    rw = f'/tmp/seedrun_{ID}_{KOUT}'
+    sh(f'git -C /repo worktree remove --force {rw}')
+    assert sh(f'git -C /repo worktree add -q --detach {rw} HEAD').returncode == 0
     try:
+        assert sh(f'git -C {rw} apply {patch}').returncode == 0
         for c in checks:
-            r = sh(f'cd /verif && ./check {c} --tier quick', timeout=3600)
+            r = subprocess.run(f'cd /verif && VERIF_EVIDENCE_DIR=/tmp/seedrun_evidence ./check {c} --tier quick', shell=True, text=True,
+                               capture_output=True, env=dict(env, DARR_REPO=rw), timeout=3600)
             line = next((l.strip() for l in r.stdout.splitlines() if 'refuted [' in l or 'INCONCLUSIVE' in l), '')
             viol = 'VIOLATION property=' in r.stdout
             caught[c] = {'rc': r.returncode, 'violation_line': viol, 'first': line[:400]}
             print(f'  check {c}: rc={r.returncode} {line[:260]}')
     finally:
-        sh('git -C /repo checkout -- .')
-    # restore evidence files from the unchanged tree (they were rewritten by the runs above)
-    sh('cd /verif && git checkout -- evidence')
-dst = Path(f'/verif/seeded/{ID}-{k}')
+        sh(f'git -C /repo worktree remove --force {rw}')
+dst = Path(f'/verif/seeded/{ID}-{KOUT}')
 if ok:
     dst.mkdir(parents=True, exist_ok=True)
     shutil.copy(patch, dst / 'patch.diff'); shutil.copy(demo, dst / 'demo.py')
     m = json.loads(meta.read_text()) if meta.exists() else {}
+    if (dst / 'meta.json').exists():
+        prev = json.loads((dst / 'meta.json').read_text())
+        if prev.get('strengthening'):
+            m['strengthening'] = prev['strengthening']
     m.update({'property': ID, 'confirmed': rec, 'repo_head_when_confirmed': sh('git -C /repo rev-parse --short HEAD').stdout.strip(),
-              'ran': f'scratch worktree: demo (clean) / git apply / full pytest / demo (patched); then in /repo: git apply, ./check <id> --tier quick for {checks}, git checkout -- .',
+              'ran': f'scratch worktree: demo (clean) / git apply / full pytest / demo (patched); then ./check <id> --tier quick for {checks} with DARR_REPO pointing at a scratch worktree carrying the patch (equivalent to git -C /repo apply / run / git checkout -- . but leaves /repo untouched for concurrent runs)',
               'checks': caught, 'detected_by': [c for c, v in caught.items() if v['rc'] == 1 and v['violation_line']]})
     (dst / 'meta.json').write_text(json.dumps(m, indent=1))
     print('kept ->', dst, 'detected_by', m['detected_by'])
